@@ -554,9 +554,41 @@ type c29Resolver struct {
 	node  uint64
 	flaky int64
 	n     atomic.Int64
+	late  *c29Late // optional: items to cancel / expire during the lookup
+}
+
+// c29Late is the registry of items that must lose their context or deadline
+// while their batch is between the router's pre-route check and submitGroup.
+type c29Late struct {
+	mu        sync.Mutex
+	cancels   map[ca.ChannelID][]context.CancelFunc
+	deadlines map[ca.ChannelID]time.Time
+	fired     atomic.Int64
+}
+
+func (l *c29Late) fire(id ca.ChannelID) {
+	l.mu.Lock()
+	cancels := l.cancels[id]
+	delete(l.cancels, id)
+	deadline, has := l.deadlines[id]
+	delete(l.deadlines, id)
+	l.mu.Unlock()
+	for _, c := range cancels {
+		c()
+		l.fired.Add(1)
+	}
+	if has {
+		if d := time.Until(deadline); d > 0 && d < 5*time.Millisecond {
+			time.Sleep(d + 50*time.Microsecond) // let the registered deadline pass during the lookup
+		}
+		l.fired.Add(1)
+	}
 }
 
 func (r *c29Resolver) ResolveAppendAuthority(_ context.Context, id ca.ChannelID) (ca.AuthorityTarget, error) {
+	if r.late != nil {
+		r.late.fire(id)
+	}
 	n := r.n.Add(1)
 	if r.flaky > 0 && n%r.flaky == 0 {
 		return ca.AuthorityTarget{}, ca.ErrRouteNotReady
@@ -629,6 +661,10 @@ type c29Item struct {
 	From    string `json:"from"`
 	No      string `json:"no"`
 	Payload string `json:"payload"`
+	// Late (router mode): 1 = the item's context is cancelled, 2 = its deadline
+	// passes, while the batch is being routed (during the authority lookup or
+	// while waiting for a router group slot), i.e. after the pre-route check.
+	Late int `json:"late,omitempty"`
 }
 
 type c29Batch struct {
